@@ -380,6 +380,16 @@ def simulate(case, with_extractor):
                         m = min(ends, key=lambda e: abs(e - m))
                         if m > acq_pos:
                             acquire(m - acq_pos)
+                if len(op) > 3 and op[3] == 'start':
+                    # snap to the onset of a trial that was generated but whose first sample was not yet acquired (the
+                    # controller holds the queue exactly where a trial begins): nothing is acquired first
+                    starts = [t['K'] for t in trials if max(acq_pos, K0) <= t['K'] <= hi]
+                    if starts:
+                        m = min(starts, key=lambda e: (abs(e - m), -e))
+                if len(op) > 3 and op[3] == 'same' and pauses:
+                    # once more at the very position of the previous pause (still between acquired and generated)
+                    if max(acq_pos, K0) <= pauses[-1][0] <= n_played:
+                        m = pauses[-1][0]
                 if m > n_played:
                     continue
                 pauses.append((m, len(trials)))
@@ -467,6 +477,9 @@ class C06(Spec):
             'pop_buffer(decrement=...) incl. False; prestim at a non-default value (on/off grid, look-back buffer = prestim or '
             'more); acquisition chunk edges at -1/0/+1 around every trial start, epoch start, waveform end and epoch end; '
             'pause before anything was generated, resume without pause, two pauses without a resume, resume(t) after the clock; '
+            'pipe-repause: two to four pause/resume cycles at one and the same time point - the onset of a trial generated but '
+            'not yet acquired, mid-waveform, a waveform end - with a few samples fetched in between, before acquisition '
+            'continues (several added/removed pairs of one (t0, key) in a single extractor call); '
             'stimuli appended while the queue runs or after it ran out; the caller overwrites the arrays it appended, every '
             'buffer pop_buffer returned and every batch of epochs it was handed; other queues/extractors with other parameters '
             'built and used first. pipe-scale: > 1000 trials / waveforms of 2^16 samples. '
@@ -675,6 +688,41 @@ class C06(Spec):
             case['decoy'] = d
         return case
 
+    def _repause_case(self, rng, hardened):
+        """k >= 2 pause/resume cycles at ONE time point before acquisition continues: pause exactly at the onset of a
+        trial that was generated but not yet acquired (or mid-waveform / at a waveform end), resume there, fetch a few
+        samples (the re-queued trial restarts at the same t0 - with the same key for FIFO), pause at the same time again,
+        resume ... so that added / removed / added / removed / added of one (t0, key) reach the extractor in one call."""
+        case = self._pipe_case(rng, big=rng.random() < 0.3, hardened=hardened)
+        case['kind'] = 'pipe-repause'
+        case.pop('late', None)
+        if rng.random() < 0.5:
+            case['policy'] = 'fifo'
+        st0 = case['stims'][0]
+        wl = st0['n'] if st0['kind'] == 'array' else int(round(st0['dur'] * case['fs']))
+        ops = []
+        if rng.random() < 0.6:
+            g = rng.choice([1, wl, wl + 3, 2 * wl + 5])
+            ops += [['gen', g], ['acq', rng.randint(1, g)]]
+        for cyc in range(rng.choice([1, 1, 2])):
+            ops.append(['gen', rng.choice([1, 2, wl, wl + 1, 2 * wl, 3 * wl + 7])])
+            if rng.random() < 0.3:
+                ops.append(['acq', rng.choice([1, 2, wl])])
+            where = rng.choice(['start', 'start', 'start', '', 'end'])
+            sel = 1000 if (where == 'start' and rng.random() < 0.7) else rng.randint(0, 1000)
+            ops.append(['pause', sel, rng.choice([0, 0, 0.3, -0.3]), where, 0])
+            for r in range(rng.choice([1, 2, 2, 3])):
+                ops.append(['resume'])
+                if rng.random() < 0.9:
+                    ops.append(['gen', max(1, rng.choice([1, 2, 3, wl - 1, wl, wl + 2]))])
+                ops.append(['pause', 0, rng.choice([0, 0, 0.3, -0.3]), 'same', 0])
+            ops.append(['resume'])
+            if rng.random() < 0.7:
+                ops.append(['gen', rng.choice([1, wl, 2 * wl + 3])])
+                ops.append(['acq', rng.choice([1, wl, 3 * wl])])
+        case['ops'] = ops
+        return case
+
     def cases(self, rng, tier):
         quick = tier == 'quick'
         yield from self._float_cases(rng, 4000 if quick else 150000)
@@ -683,6 +731,8 @@ class C06(Spec):
         for i in range(600 if quick else 2500):
             yield self._pipe_case(rng, big=(i % 3 == 0))
             yield self._pipe_case(rng, big=(i % 3 == 0), hardened=True)
+        for i in range(150 if quick else 1200):
+            yield self._repause_case(rng, hardened=(i % 3 == 2))
 
     # ------------------------------------------------------------------ lines
     @staticmethod
@@ -832,7 +882,7 @@ class C06(Spec):
         notifications) and only the queue's cancellation decisions differ from the sample grid:
         the recorded pause/requeue defects of queue.py (re-cancel on a second pause, float tie at a
         trial end).  Anything else is a C06 violation."""
-        if case['kind'] != 'pipe':
+        if case['kind'] not in ('pipe',):
             return None
         if not any(o[0] == 'pause' for o in case['ops']):
             return None
@@ -873,7 +923,7 @@ class C06(Spec):
             yield c
 
     def shrink_candidates(self, case):
-        if case['kind'] != 'pipe':
+        if case['kind'] not in ('pipe', 'pipe-repause'):
             return
         ops = case['ops']
         for i in range(len(ops)):
